@@ -47,6 +47,7 @@ type c01Carrier struct {
 	frozen  bool
 	rbuf    []byte
 	handler chan struct{} // closed when the server-side handler returned
+	peer    *snowflake_client.WebRTCPeer
 }
 
 func (c *c01Carrier) kill() {
@@ -86,7 +87,6 @@ func (e clientEnd) Write(b []byte) (int, error) {
 		return len(b), nil
 	case fFreeze:
 		c.frozen = true
-		w.startStaleTimer(c)
 		return len(b), nil
 	}
 	if !c.srv.TryFeed(b, c.dead) {
@@ -103,6 +103,10 @@ func (e clientEnd) Read(p []byte) (int, error) {
 			return 0, io.EOF
 		case chunk := <-c.srv.out:
 			c.rbuf = chunk
+			if c.peer != nil {
+				// pion's OnMessage: hand over the data, then refresh lastReceive
+				snowflake_client.VerifNoteReceive(c.peer)
+			}
 		}
 	}
 	n := copy(p, c.rbuf)
@@ -146,7 +150,6 @@ func (s c01ServerConn) Write(p []byte) (int, error) {
 		return len(p), nil
 	case fFreeze:
 		c.frozen = true
-		c.w.startStaleTimer(c)
 		return len(p), nil
 	}
 	return s.fakeConn.Write(p)
@@ -241,7 +244,11 @@ func (c c01Collector) Pop() *snowflake_client.WebRTCPeer {
 	w.carriers = append(w.carriers, car)
 	go w.serveCarrier(car)
 	end := clientEnd{car}
-	return snowflake_client.VerifNewFakePeer(end, end, nopPipeWriter{})
+	car.peer = snowflake_client.VerifNewFakePeer(end, end, nopPipeWriter{})
+	// the real staleness check closes a peer that has not received anything for 20 s: this is what
+	// makes the client abandon a frozen carrier
+	snowflake_client.VerifStartStaleness(car.peer)
+	return car.peer
 }
 
 // Send is the data channel's Send: one message relayed by the proxy.
